@@ -28,5 +28,6 @@ class ImportNode(BaseNode):
             node.name = Sign.SEPARATOR.join(path)
             node.indent = self.indent
             node.isource = self.source
+            node.value_ref = None  # the copy carries its value already, it must not be injected again
             nodes_new.append(node)
         return nodes_new
